@@ -208,7 +208,7 @@ def build_js_case(spec):
         for s in stmts:
             ln = s.get("_line")
             t = s["t"]
-            if t in ("decl", "read", "write"):
+            if t in ("decl", "read", "write", "call"):
                 if s["n"] == d.name and occ_decl.get((ln, False)) is d:
                     s["n"] = FRESH
             elif t == "block":
@@ -237,7 +237,7 @@ def meta_strategy(lang):
 
     @st.composite
     def js(draw):
-        return {"tree": draw(J.tree_strategy(bare_blocks=False)), "pick": draw(st.integers(0, 1000))}
+        return {"tree": draw(J.tree_strategy(bare_blocks=False, calls=True)), "pick": draw(st.integers(0, 1000))}
     return js()
 
 
